@@ -54,6 +54,9 @@ Judge(ev) ==
                 ELSE IF ParseAmount(AmountPart(s)).cls = "accept" /\ ~QEqv(ParseAmount(AmountPart(s)).q, Q(ev.a))
                      THEN "bad:text-value"
                 ELSE J(ev.obs.generic_same /\ ev.obs.typed_same)
+      [] ev.op = "gensym" ->
+            \* the symbol generated for a derived reference unit / a unit derived from base-type units
+            J(ev.obs.st = "ok" /\ Lim(ev.obs.codes) = GenSymbol(ev.items) /\ ev.obs.registered)
       [] ev.op = "dupsym" ->
             \* a unit symbol already used by another type is rejected, and the old unit still round-trips
             J(ev.obs.rejected /\ ev.obs.roundtrip)
